@@ -222,12 +222,27 @@ def check_sized_ctor(db, rep):
         rep.ok('D.ini')
 
 
+MOVE_FIELDS = ('CoherentRhoTerms', 'NonCoherentRhoTerms', 'OtherRhoTerms', 'GammaScalarTerms', 'OtherScalarTerms', 'AnyNumerics', 'is_init',
+               'adaptive_step', 'x', 't', 't_ini', 'nsteps', 'size_rho', 'size_state', 'system', 'step', 'sys', 'h', 'h_min', 'h_max', 'abs_error',
+               'rel_error', 'dstate', 'last_dstate_ptr', 'last_estate_ptr', 'nx', 'nsun', 'nrhos', 'nscalars', 'params', 'state', 'estate')
+
+
 def check_moves(db, rep):
     unit = db.unit('SQuIDS')
     rec = [r for r in unit.records if r['name'] == sm.SQ]
     if not rec:
         raise AnalysisBroken('record squids::SQuIDS not found')
-    fields = [f['name'] for f in rec[0]['fields']]
+    declared = [f['name'] for f in rec[0]['fields']]
+    # the members that make up the solver's state, as confirmed on the tree this rule was armed on (one line of reason:
+    # each is read by Evolve, the RHS callback, a query or a getter).  A member that is not in this table - bookkeeping a
+    # later change introduced - cannot be judged here and is only noted; a table entry that has vanished is an anchor lost.
+    missing_anchor = [k for k in MOVE_FIELDS if k not in declared]
+    if missing_anchor:
+        raise AnalysisBroken('members of squids::SQuIDS the move rule was armed on are gone: %s' % missing_anchor)
+    extra = [k for k in declared if k not in MOVE_FIELDS]
+    if extra:
+        rep.notes.append('D.move: members not in the confirmed table, not judged: %s' % ', '.join(extra))
+    fields = [k for k in declared if k in MOVE_FIELDS]
     fR = db.one('SQuIDS', 'squids::RHS', 4)
     movers = [('move constructor', db.one('SQuIDS', 'squids::SQuIDS::SQuIDS', 1, lambda f: f.get('moveCtor'))),
               ('move assignment', db.one('SQuIDS', 'squids::SQuIDS::operator=', 1, lambda f: f.get('moveAssign')))]
